@@ -33,6 +33,8 @@ claimed = {
              note="REAL-ARITHMETIC ABSTRACTION: every float64 operation is mapped to exact rational arithmetic and math.Log to an uninterpreted strictly monotone function; floating-point rounding is outside the claim (native replays compare with a 1e-9 relative tolerance)."),
  "C02": dict(design="5/C02", text="Every location tree of the stated family (all spans / single bases with all partial-marker combinations over a 4- or 6-base parent, complements, joins of 2..3 (quick) / 2..4 (thorough) operands, complement(join), join containing complement(join)) is run through parseLocation / AddFeature / GetSequence / BuildLocationString from SSA with the parent bases symbolic over the IUPAC codes; the solver decides for all parents that parsed and assembled locations denote the INSDC bases, that written text is accepted by a strict INSDC recogniser, denotes the same bases and partial ends and parses back.",
              note="Known finding C02-F1 (3' partial written as a..b>, pinned by TestGbkLocationStringBuilder) is scoped to the syntax clause of trees with a 3' partial end. The tree shape is enumerated (forked); the solver covers the parent sequence."),
+ "C10": dict(design="5/C10", text="Designed layouts (4 enzymes incl. a custom 3-letter site, 0..2 / 0..4 sites in either orientation and case, boundary gaps, sites at the very ends of linear parts) with all filler bases symbolic over {A,T,a,t}: CutWithEnzyme / CutWithEnzymeByName from SSA (regexp through the symbolic matcher) must return exactly the fragments an independent geometry oracle computes, for EVERY rotation of circular parts, without panicking.",
+             note="Precondition assumed as stated in the evidence (disjoint sites / overhang windows, cuts >= 2 overhangs apart). Layout structure is enumerated; the solver covers the filler bases (site detection is decided by domain tables because the filler cannot form a site)."),
 }
 
 na_reason = {}
